@@ -48,6 +48,11 @@ pub struct WTx {
     /// inputs: (world tx id, output index)
     pub inputs: Vec<(usize, usize)>,
     pub outputs: Vec<WCell>,
+    /// the same transaction (same bytes, same hash) as world tx `same_as`, mined again in this block: what
+    /// happens to most transactions of abandoned blocks after a reorganisation.  `inputs` then name the producers
+    /// as they are known on THIS branch (twins of the original producers where those were mined again too).
+    #[serde(default)]
+    pub same_as: Option<usize>,
 }
 
 #[derive(Clone, Debug, Serialize, Deserialize)]
@@ -99,6 +104,10 @@ pub struct SimTx {
     pub block: usize,
     pub index: usize,
     pub view: TransactionView,
+    /// producers of the inputs as 1-based world tx ids (0 = not a world transaction), branch-local for a twin
+    pub ins: Vec<(i64, usize)>,
+    /// the original this transaction is a re-mined copy of
+    pub twin_of: Option<usize>,
 }
 
 pub struct SimChain {
@@ -110,6 +119,8 @@ pub struct SimChain {
     pub wscripts: Vec<WScript>,
     hash2id: HashMap<Byte32, usize>,
     txhash2id: HashMap<Byte32, usize>,
+    /// every world tx id with this hash (the original first)
+    txhash2ids: HashMap<Byte32, Vec<usize>>,
     // one MMR leaf store per branch; forks start from a copy of the parent's branch store
     stores: Vec<MemStore<packed::HeaderDigest>>,
     children: Vec<Vec<usize>>,
@@ -185,6 +196,7 @@ impl SimChain {
             wscripts: scripts.to_vec(),
             hash2id: HashMap::new(),
             txhash2id: HashMap::new(),
+            txhash2ids: HashMap::new(),
             stores: vec![MemStore::default()],
             children: vec![Vec::new()],
             nonce_seed: RefCell::new(1),
@@ -193,11 +205,21 @@ impl SimChain {
         for (i, tx) in genesis.transactions().into_iter().enumerate() {
             let id = chain.txs.len();
             chain.txhash2id.insert(tx.hash(), id);
+            chain.txhash2ids.entry(tx.hash()).or_default().push(id);
+            let ins: Vec<(i64, usize)> = if tx.is_cellbase() {
+                Vec::new()
+            } else {
+                tx.input_pts_iter()
+                    .map(|op| (chain.txhash2id.get(&op.tx_hash()).map(|t| *t as i64 + 1).unwrap_or(0), Unpack::<u32>::unpack(&op.index()) as usize))
+                    .collect()
+            };
             chain.txs.push(SimTx {
                 id,
                 block: 0,
                 index: i,
                 view: tx,
+                ins,
+                twin_of: None,
             });
             tx_ids.push(id);
         }
@@ -364,7 +386,15 @@ impl SimChain {
         for (k, wtx) in wb.txs.iter().enumerate() {
             let tid = first_tx_id + 1 + k;
             // temporarily register so that same-block inputs resolve
-            let view = {
+            let view = if let Some(orig) = wtx.same_as {
+                // mined again: the very same transaction
+                let v = self.txs[orig].view.clone();
+                for ((txid, idx), op) in wtx.inputs.iter().zip(v.input_pts_iter()) {
+                    let prev_hash = if *txid >= first_tx_id { tx_views[*txid - first_tx_id].hash() } else { self.txs[*txid].view.hash() };
+                    assert!(prev_hash == op.tx_hash() && Unpack::<u32>::unpack(&op.index()) == *idx as u32, "twin inputs must name the same cells");
+                }
+                v
+            } else {
                 let mut b = TransactionBuilder::default();
                 for (txid, idx) in &wtx.inputs {
                     let prev_hash = if *txid >= first_tx_id {
@@ -377,6 +407,7 @@ impl SimChain {
                 let tmp = self.build_tx(tid, &WTx {
                     inputs: vec![],
                     outputs: wtx.outputs.clone(),
+                    same_as: None,
                 });
                 b = b
                     .outputs(tmp.outputs())
@@ -403,12 +434,20 @@ impl SimChain {
         let mut tx_ids = Vec::new();
         for (i, tx) in tx_views.into_iter().enumerate() {
             let tid = self.txs.len();
-            self.txhash2id.insert(tx.hash(), tid);
+            self.txhash2id.entry(tx.hash()).or_insert(tid);
+            self.txhash2ids.entry(tx.hash()).or_default().push(tid);
+            let (ins, twin_of) = if i == 0 {
+                (Vec::new(), None)
+            } else {
+                (wb.txs[i - 1].inputs.iter().map(|(p, o)| (*p as i64 + 1, *o)).collect(), wb.txs[i - 1].same_as)
+            };
             self.txs.push(SimTx {
                 id: tid,
                 block: id,
                 index: i,
                 view: tx,
+                ins,
+                twin_of,
             });
             tx_ids.push(tid);
         }
@@ -484,6 +523,42 @@ impl SimChain {
 
     pub fn tx_id_of(&self, hash: &Byte32) -> Option<usize> {
         self.txhash2id.get(hash).cloned()
+    }
+
+    /// All world ids of the transaction with this hash (it may have been mined again on another branch).
+    pub fn tx_ids_of(&self, hash: &Byte32) -> Vec<usize> {
+        self.txhash2ids.get(hash).cloned().unwrap_or_default()
+    }
+
+    /// Is this transaction mined in more than one block of the world?
+    pub fn has_twin(&self, tx: usize) -> bool {
+        self.tx_ids_of(&self.txs[tx].view.hash()).len() > 1
+    }
+
+    /// The copy of the transaction that is on the chain ending in `tip` (else the original).
+    pub fn tx_id_on(&self, hash: &Byte32, tip: usize) -> Option<usize> {
+        let ids = self.tx_ids_of(hash);
+        ids.iter().cloned().find(|t| self.is_ancestor(self.txs[*t].block, tip)).or_else(|| ids.first().cloned())
+    }
+
+    /// The copy meant by an index entry at (block number, tx index): the one mined at exactly that position; else
+    /// the copy on the chain ending in `tip`; else the original.
+    pub fn tx_id_at(&self, hash: &Byte32, num: u64, index: Option<usize>, tip: Option<usize>) -> Option<usize> {
+        let ids = self.tx_ids_of(hash);
+        if ids.len() <= 1 {
+            return ids.first().cloned();
+        }
+        let at: Vec<usize> = ids.iter().cloned().filter(|t| self.blocks[self.txs[*t].block].num == num && index.map(|i| self.txs[*t].index == i).unwrap_or(true)).collect();
+        if at.len() == 1 {
+            return Some(at[0]);
+        }
+        let pool = if at.is_empty() { ids.clone() } else { at };
+        if let Some(tip) = tip {
+            if let Some(t) = pool.iter().cloned().find(|t| self.is_ancestor(self.txs[*t].block, tip)) {
+                return Some(t);
+            }
+        }
+        pool.first().cloned()
     }
 
     pub fn children_of(&self, id: usize) -> &[usize] {
@@ -652,13 +727,7 @@ impl SimChain {
                 let ins: Vec<serde_json::Value> = if t.view.is_cellbase() {
                     vec![]
                 } else {
-                    t.view
-                        .input_pts_iter()
-                        .map(|op| {
-                            let idx: u32 = op.index().unpack();
-                            serde_json::json!([self.tx_id_of(&op.tx_hash()).map(|i| i as i64 + 1).unwrap_or(0), idx])
-                        })
-                        .collect()
+                    t.ins.iter().map(|(p, o)| serde_json::json!([p, o])).collect()
                 };
                 let outs: Vec<serde_json::Value> = t
                     .view
@@ -673,7 +742,7 @@ impl SimChain {
                         ])
                     })
                     .collect();
-                serde_json::json!({"b": t.block + 1, "i": t.index, "ins": ins, "outs": outs})
+                serde_json::json!({"b": t.block + 1, "i": t.index, "ins": ins, "outs": outs, "h": t.twin_of.unwrap_or(t.id) + 1})
             })
             .collect();
         let btx: Vec<Vec<usize>> = self.blocks.iter().map(|b| b.tx_ids.iter().map(|t| t + 1).collect()).collect();
